@@ -26,6 +26,8 @@ MUTANTS = [
     {"name": "nodes-helper-no-filter", "file": "src/proxy/cluster.rs", "old": "                if should_ignore_slots(slot_range, migration_states) {\n                    return None;\n                }\n", "new": "", "expect": "C14.D3"},
     {"name": "slots-remote-empty-states", "file": "src/proxy/cluster.rs", "old": "            .gen_remote_cluster_slots(migration_states)?;", "new": "            .gen_remote_cluster_slots(&HashMap::new())?;", "expect": "C14.D3:states-passed"},
     {"name": "importing-serves-in-precheck", "file": "src/migration/scan_task.rs", "old": "        if self.state.get_state() == MigrationState::PreCheck {\n            return handle_redirection(\n                cmd_task,\n                self.meta.src_proxy_address.clone(),", "new": "        if self.state.get_state() == MigrationState::FinalSwitch {\n            return handle_redirection(\n                cmd_task,\n                self.meta.src_proxy_address.clone(),", "expect": "C14.D2"},
+    {"name": "routing-table-skips-migrating-ranges", "file": "src/proxy/slot.rs", "old": "            for slot_range in slot_ranges {\n                for range in", "new": "            for slot_range in slot_ranges {\n                if slot_range.tag.is_migrating() {\n                    continue;\n                }\n                for range in", "expect": "C14.D2:slot-map"},
+    {"name": "local-ranges-collected-under-one-key", "file": "src/proxy/cluster.rs", "after": "fn gen_local_cluster_nodes(", "old": "        let slots: Vec<SlotRange> = self\n            .slot_ranges\n            .values()\n            .flatten()\n            .cloned()\n            .collect::<Vec<SlotRange>>();\n        let mut slot_ranges = HashMap::new();\n        slot_ranges.insert(service_address, slots);", "new": "        let slot_ranges: HashMap<String, Vec<SlotRange>> = self\n            .slot_ranges\n            .values()\n            .map(|slots| (service_address.clone(), slots.clone()))\n            .collect();", "expect": "C14.D3:ranges-lossless"},
 ]
 
 
@@ -108,6 +110,11 @@ def run(ctx):
             ctx.check(st["migrating"].get("PreCheck") == "local" and st["importing"].get("PreCheck") == "redirect-src", "C14.D2", "before-handshake-at-source", None,
                       ok="before the handshake: served at the source, destination redirects to the source", bad="PreCheck routing: migrating=%s importing=%s" % (st["migrating"].get("PreCheck"), st["importing"].get("PreCheck")))
     _fast_path_flag(ctx)
+    # the routing table the advertisement is compared with covers every range the metadata gives this proxy
+    from .C02 import _slot_map
+    from .C09 import slot_table_boundary
+    _slot_map(ctx, "C14.D2")
+    slot_table_boundary(ctx, "C14.D2")
     _generators(ctx)
 
 
@@ -202,6 +209,23 @@ def _generators(ctx):
                     ctx.check(not uses, "C14.D3", "ignored-range-not-emitted:%s" % hn, site(b, bb), ok="an ignored range is skipped", bad="a range judged `ignore` is still used at bb%s" % uses)
                 else:
                     ctx.check(bool(uses), "C14.D3", "kept-range-emitted:%s" % hn, site(b, bb), ok="a kept range is emitted", bad="a kept range is never used")
+    # the halves hand every stored range to the helpers: no element-dropping operation between self.slot_ranges / the
+    # remote map and the helper's argument (two local masters behind one proxy must both be listed)
+    from ..lib import lossy_ops
+    nh = 0
+    for b in F.all_bodies(bins=False):
+        if b.is_mock() or b.kind == "Promoted" or not b.path.startswith("proxy::cluster::") or "tests::" in b.path:
+            continue
+        for bb, t in calls_to(b, "gen_cluster_nodes_helper", "gen_cluster_slots_helper"):
+            du = DefUse(b)
+            for a, ty in zip(t["args"], t.get("atys", [])):
+                if "SlotRange" not in ty:
+                    continue
+                nh += 1
+                lo = lossy_ops(b, du.slice_operand(a))
+                ctx.check(not lo, "C14.D3", "ranges-lossless:%s" % b.path.rsplit("::", 1)[-1], site(b, lo[0][1]) if lo and lo[0][1] is not None else site(b, bb), ok="all stored ranges reach the generator",
+                          bad="the ranges handed to the generator pass through %s, which can drop entries (several local nodes collected under one key keep only one node's ranges): covered slots are missing from CLUSTER NODES / SLOTS" % [x[0] for x in lo])
+    ctx.floor("C14.D3", "generator helper calls with a range argument", nh, 4)
     # the four halves get the caller's migration_states
     for fn, callees in (("ClusterBackendMap::gen_cluster_nodes", ("gen_local_cluster_nodes", "gen_remote_cluster_nodes")), ("ClusterBackendMap::gen_cluster_slots", ("gen_local_cluster_slots", "gen_remote_cluster_slots"))):
         b = F.one(fn)
